@@ -384,7 +384,7 @@ def nontrivial(defn: dict) -> bool:
 
 def features(defn: dict, acc: dict | None = None) -> dict:
     acc = acc if acc is not None else {}
-    for k in ("defaults", "hooks", "old", "sub", "mixed", "extends", "wrapped", "kw_only", "static_hooks", "override"):
+    for k in ("defaults", "hooks", "old", "sub", "mixed", "extends", "wrapped", "kw_only", "static_hooks", "override", "bare"):
         if defn.get(k):
             acc[k] = 1
     for i, f in enumerate(defn["fields"]):
@@ -731,6 +731,24 @@ class Forms:
     def _build_plain(self, defn: dict, inner_forms: "Forms") -> type:
         from ipv8.messaging.lazy_payload import VariablePayload
         fmts = self._format_list(defn, inner_forms)
+        if defn.get("bare"):
+            # a hand-written message in the oldest style: a bare Serializable (no VariablePayload machinery) - a legal
+            # nested format in every form of the enclosing definition
+            from ipv8.messaging.serialization import Serializable
+            names = list(defn["names"])
+
+            def __init__(self, *args):  # noqa: N807
+                for n, a in zip(names, args):
+                    setattr(self, n, a)
+
+            def to_pack_list(self):
+                return [(fmt, getattr(self, n)) for fmt, n in zip(fmts, names)]
+
+            def from_unpack_list(cls, *args):
+                return cls(*args)
+            return type(defn["name"], (Serializable,), {"format_list": fmts, "names": names, "__module__": SCRATCH,
+                                                        "__init__": __init__, "to_pack_list": to_pack_list,
+                                                        "from_unpack_list": classmethod(from_unpack_list)})
         ns: dict = {"format_list": fmts, "names": list(defn["names"]), "__module__": SCRATCH}
         ns.update(_hook_namespace(defn))
         dflt = default_values(defn, inner_forms.mk)
@@ -744,6 +762,8 @@ class Forms:
     def _build(self, defn: dict) -> type:
         if self.kind == "interp":
             return self._build_plain(defn, self)
+        if defn.get("bare") and self.kind in ("compiled", "dataclass"):
+            return self.plain.cls(defn)          # written by hand once; every form of the outer definition nests this class
         if self.kind == "compiled":
             from ipv8.messaging.lazy_payload import vp_compile
             if defn.get("override") and any(hook_of(defn, n) is not None and hook_of(defn, n)[0] is not None
@@ -1311,6 +1331,11 @@ def _definition_strategy(plain_formats: list[str]):
             defn["wrapped"] = 1
         if defaults and draw(st.integers(0, 3)) == 0:
             defn["kw_only"] = 1
+        if depth > 0 and not hooks and not defaults and all("fmt" in f and f["fmt"] != "bits" for f in fields) and \
+                draw(st.integers(0, 2)) == 0:
+            for k in ("old", "sub", "mixed", "extends", "native"):
+                defn.pop(k, None)
+            defn["bare"] = 1
         return defn
 
     @st.composite
